@@ -120,6 +120,36 @@ func genC17(g *prng.R) c17Case {
 				} else {
 					doc[key] = A{ns, stub}
 				}
+			} else if ns, isIRI := next.(string); isIRI && g.Chance(1, 4) {
+				// a detour: next to the IRI of the next document sits an
+				// embedded value that reaches the same document over one or
+				// two more hops, so the same IRI is met at two depths (the
+				// library examines embedded values before fetched ones: the
+				// deeper occurrence comes first)
+				cnt++
+				inner := M{"type": "Note", "id": fmt.Sprintf("%s/notes/detour%d", pick(g, R1, R2), cnt), pick(g, "inReplyTo", "tag", "object"): ns}
+				if g.Bool() {
+					cnt++
+					inner = M{"type": "Note", "id": fmt.Sprintf("%s/notes/detour%d", pick(g, R1, R2), cnt), "inReplyTo": inner}
+				}
+				switch g.Intn(4) {
+				case 0:
+					doc[key] = A{inner, ns}
+				case 1:
+					doc[key] = A{ns, inner}
+				default:
+					// both occurrences sit inside embedded sibling branches,
+					// the longer branch first: the document behind the IRI is
+					// fetched while the long branch is searched (possibly at
+					// the depth limit) and again, nearer, in the short one
+					cnt++
+					short := M{"type": "Note", "id": fmt.Sprintf("%s/notes/short%d", pick(g, R1, R2), cnt), pick(g, "inReplyTo", "object"): ns}
+					if g.Chance(3, 4) {
+						doc[key] = A{inner, short}
+					} else {
+						doc[key] = A{short, inner}
+					}
+				}
 			} else if g.Chance(1, 3) {
 				// siblings: the continuation of the chain is not always the first value
 				cnt++
@@ -157,6 +187,124 @@ func genC17(g *prng.R) c17Case {
 		return id
 	}
 	first := chain(1)
+	graphMode := false
+	if g.Chance(1, 3) {
+		// a reply *graph* instead of a chain: a few notes with one or two
+		// forward references each, every reference embedded or by IRI, so
+		// that one document is reachable over several paths of different
+		// lengths and in different search orders; at most one node is owned
+		n := g.Range(4, 7)
+		owned := g.Range(1, n) // == n: nobody is owned
+		ids := make([]string, n)
+		for i := range ids {
+			ids[i] = fmt.Sprintf("%s/notes/g%d", pick(g, R1, R2), i)
+		}
+		edges := make([][]int, n)
+		keys := make([][]string, n)
+		for i := 0; i < n-1; i++ {
+			for k, m := 0, g.Range(1, 2); k < m; k++ {
+				edges[i] = append(edges[i], g.Range(i+1, n-1))
+				keys[i] = append(keys[i], pick(g, "inReplyTo", "inReplyTo", "object", "tag")) // a Note has no target: it would be an unknown member
+			}
+		}
+		var build func(i int) M
+		ref := func(j int) interface{} {
+			if j == owned {
+				if g.Bool() {
+					return L + "/notes/1"
+				}
+				return M{"type": "Note", "id": L + "/notes/1"}
+			}
+			if g.Bool() {
+				return build(j)
+			}
+			if _, done := sc.Remote[ids[j]]; !done {
+				if g.Chance(1, 12) {
+					sc.Remote[ids[j]] = sim.RemoteSpec{Fail: true}
+				} else {
+					sc.Remote[ids[j]] = sim.RemoteSpec{Doc: withCtx(build(j))}
+				}
+			}
+			return ids[j]
+		}
+		build = func(i int) M {
+			doc := M{"type": "Note", "id": ids[i], "content": "graph node"}
+			for k, j := range edges[i] {
+				key := keys[i][k]
+				switch cur := doc[key].(type) {
+				case nil:
+					doc[key] = ref(j)
+				case A:
+					doc[key] = append(cur, ref(j))
+				default:
+					doc[key] = A{cur, ref(j)}
+				}
+			}
+			return doc
+		}
+		first = build(0)
+		if g.Bool() {
+			first = ref(0)
+		}
+		depth, ownAt = n, owned
+		if typ == "Create" || typ == "Offer" {
+			typ = "Announce"
+			act["type"] = typ
+		}
+		// the limit is drawn again so that all of 1..4 meet graphs
+		sc.Cfg.MaxForward = g.Range(1, 4)
+		if g.Chance(2, 3) {
+			act["to"] = A{alice() + "/followers"}
+		}
+		graphMode = true
+	} else if g.Chance(1, 5) {
+		// a diamond with unequal arms: one fetched document X is referenced
+		// by IRI from the end of a long and of a short embedded branch, and
+		// the owned value lies behind X. With the limit at the end of the
+		// short path the long arm meets X where it may no longer be entered.
+		cnt += 10
+		X := fmt.Sprintf("%s/notes/shared%d", pick(g, R1, R2), cnt)
+		var tail interface{} = L + "/notes/1"
+		if g.Bool() {
+			tail = M{"type": "Note", "id": L + "/notes/1"}
+		}
+		if g.Chance(1, 3) {
+			tail = M{"type": "Note", "id": fmt.Sprintf("%s/notes/behind%d", R2, cnt), "inReplyTo": tail}
+		}
+		sc.Remote[X] = sim.RemoteSpec{Doc: withCtx(M{"type": "Note", "id": X, pick(g, "inReplyTo", "object", "tag"): tail})}
+		wrap := func(n int, tag string) interface{} {
+			var v interface{} = X
+			for i := 0; i < n; i++ {
+				cnt++
+				v = M{"type": "Note", "id": fmt.Sprintf("%s/notes/%s%d", pick(g, R1, R2), tag, cnt), pick(g, "inReplyTo", "inReplyTo", "object", "tag"): v}
+			}
+			return v
+		}
+		b := g.Intn(3)
+		a := b + g.Range(1, 2)
+		long, short := wrap(a, "long"), wrap(b, "short")
+		arms := A{long, short}
+		if g.Chance(1, 3) {
+			arms = A{short, long}
+		}
+		if g.Bool() {
+			cnt++
+			first = M{"type": "Note", "id": fmt.Sprintf("%s/notes/root%d", R1, cnt), "inReplyTo": arms}
+		} else {
+			first = nil
+			act["object"] = arms
+		}
+		depth, ownAt = a+2, b+2
+		if typ == "Create" || typ == "Offer" {
+			typ = "Announce"
+			act["type"] = typ
+		}
+		sc.Cfg.MaxForward = g.Range(1, 4)
+		if g.Chance(2, 3) {
+			act["to"] = A{alice() + "/followers"}
+		}
+		graphMode = true
+	}
 	switch typ {
 	case "Offer":
 		act["object"] = R1 + "/notes/plain"
@@ -171,7 +319,9 @@ func genC17(g *prng.R) c17Case {
 			}
 		}
 	default:
-		if g.Chance(1, 3) {
+		if first == nil {
+			// the diamond's arms are the activity's own object values
+		} else if g.Chance(1, 3) {
 			sib := R2 + "/notes/top-sibling"
 			sc.Remote[sib] = sim.RemoteSpec{Doc: withCtx(M{"type": "Note", "id": sib, "content": "unrelated"})}
 			if g.Bool() {
@@ -185,6 +335,19 @@ func genC17(g *prng.R) c17Case {
 	}
 	if g.Chance(1, 5) {
 		act["tag"] = A{M{"type": "Mention", "href": pick(g, alice(), carol())}}
+	}
+	if graphMode && g.Chance(3, 4) {
+		// put the limit where the graph's shortest path to the owned value
+		// ends: the value is then found on the last permitted level, and any
+		// longer path to it is cut (the limit only selects which cases are
+		// generated; what must happen is still computed by the model)
+		w := sc.Build()
+		for d := 1; d <= 4; d++ {
+			if modelOwnershipHit(sc, w, act, d) {
+				sc.Cfg.MaxForward = d
+				break
+			}
+		}
 	}
 	// history
 	k := g.Range(1, 3)
